@@ -52,7 +52,10 @@ Definition judge_c11 (g : cfg) (u : unit) (o : obs) : list N * unit :=
     let pre := ob_pre o in
     let ms := may_send (g_role g) (c_version pre) (c_status pre) p in
     if negb ms && negb (match sends (ob_evs o) with [] => true | _ => false end) then ([1; k_type p], u)   (* passed on although not allowed *)
-    else if negb ms && negb (storable_kind p && c_need_store pre) then
+    (* the storing exception only covers the connection STATE: a packet of the wrong protocol version
+       or of a kind the role may not originate is refused even when it could be stored *)
+    else if negb ms && negb (storable_kind p && c_need_store pre
+                             && version_eqb (c_version pre) (k_ver p) && role_may_originate (g_role g) (k_ver p) (k_type p)) then
       (* refused: only errors (+ release of the packet's id), state as if the call had not been made *)
       if match errors (ob_evs o) with [] => true | _ => false end then ([2; k_type p], u)
       else if existsb is_notify (ob_evs o) || existsb is_close (ob_evs o) then ([3; k_type p], u)
